@@ -23,19 +23,22 @@ class C28(core.Check):
                  "codecs as a lawful parameter; differential run of the compiled model against fresh run-time subclasses of the real Dom bases "
                  "through the real json/cbor2/msgpack; independent equality oracle on the real objects")
     level_text = ("Lean theorems for every schema, class, instance and nesting depth (unbounded): fromdict_asdict_partial (datify (dictify x)) = x for every instance whose nested "
-                  "data objects sit directly in fields annotated with the class itself or Optional[class] / class | None (the latter after fix commit), other values plain; "
-                  "roundtrip_any_lawful_codec_partial lifts it through ANY codec with decode (encode v) = v on the representable trees (the codec is a parameter, never an axiom); "
-                  "asdict_is_plain (what is handed to a codec never contains an object). _partial because datify does not rebuild objects inside list[Dom] / dict[str, Dom] / "
-                  "string ('from __future__ import annotations') / Any annotated fields (witness theorems, known finding C28-K1) and turns a plain dict that fits a class-annotated "
-                  "field into an instance (witness, known finding C28-K2). That json/cbor2/msgpack are lawful on the generated domain is carried by the correspondence run only.")
+                  "data objects sit directly in fields annotated with their class or with a union (Optional[C], C | None, A | B | None, Optional[Union[A, B]]) in which every member tried "
+                  "EARLIER lacks one of the object's field names (guard wt; datify over a union tries the members in order and keeps the first that accepts), other values plain; "
+                  "roundtrip_any_lawful_codec_partial / roundtrip_lawful_on_domain_partial lift it through ANY codec with decode (encode v) = v on the tree handed to it (the codec is a parameter, never an axiom); "
+                  "asdict_is_plain; union_second_member_roundtrips. _partial because of three characterised sets, each with a witness theorem and a known finding: objects inside list[Dom] / dict[str, Dom] / "
+                  "string-annotated / Any fields (C28-K1), a plain dict that fits a class-annotated field (C28-K2), union members that the field names do not distinguish (union_ambiguous_members_fail, C28-K3). "
+                  "In the model every call is a function of its argument only; that the real functions are too (no state shared between calls, no aliasing between results) and that json/cbor2/msgpack are "
+                  "lawful on the generated domain is carried by the correspondence and the oracle over call HISTORIES (failed serialisations in between, the same bytes loaded twice with the first result scribbled on).")
     level_note = ("Trusted: Lean kernel + propext/Classical.choice/Quot.sound; dataclasses.asdict / dataclass __init__ / typing introspection as modelled; "
                   "json, cbor2, msgpack as lawful codecs on the common domain (exercised, not proved); representativeness of the sampled correspondence.")
     quick_n = 4000
     thorough_n = 30000
     rule = ("rt cases: random schema of 1-5 fresh run-time dataclasses over RawDom/RegDom/TymeDom/Ice*/MapDom bases, fields annotated Any / builtin / class / Optional[class] / "
-            "class|None / list[class] / dict[str,class] / 'class' (string), defaults or required; instance of depth <= 4 with 64-bit ints, non-NaN floats incl. inf and -0.0, "
-            "unicode strings, empty containers, str keys; 30% 'dirty' (objects / plain dicts in places datify does not handle). load cases: cls._fromdict on arbitrary plain trees "
-            "(missing / unknown keys, defaults, empty list/str). non-trivial = instance holds a nested object or a container, or a load that exercises defaults / rejection; distinct by request line")
+            "class|None / unions of 2-3 classes in either spelling (values of EVERY member) / list[class] / dict[str,class] / 'class' (string), defaults or required; instance of depth <= 4 with 64-bit ints, "
+            "non-NaN floats incl. inf and -0.0, unicode strings, empty containers, str keys; 30% 'dirty'. Every raw route also loads the same bytes a second time after every list/dict of the first result was "
+            "changed in place. load cases: cls._fromdict on arbitrary plain trees. seq cases (30%): 2-6 calls in one freshly imported module: round trips (also of the same instance again), loads, and "
+            "serialisations of a record holding an unserialisable object that must be refused, interleaved. non-trivial = some step holds a nested object or a container, or a load of a non-empty dict; distinct by request line")
     trusted_base = ["correspondence harness/props/C28.py + harness/areas/dom.py: compiled model driver vs the real doming classes and the real json/cbor2/msgpack",
                     "modelled: dataclasses.asdict, dataclass keyword construction with defaults, typing.get_origin/get_args on Optional"]
     assumptions = ["json / cbor2 / msgpack decode(encode(v)) == v (type-exact) for None, bool, 64-bit int, non-NaN float, unicode str without surrogates, list, str-keyed dict"]
@@ -66,25 +69,88 @@ class C28(core.Check):
         cs.append(("load", [P, L(("dom", 0))], 1, ("dict", [("a", ("dict", [("x", ("int", 5))]))])))
         cs.append(("load", [P, L(("opt", 0))], 1, ("dict", [("a", ("dict", [("x", ("int", 5))]))])))
         cs.append(("load", [P, L(("list", 0))], 1, ("dict", [("a", ("list", [("dict", [("x", ("int", 5))])]))])))
+        # unions of several data-object classes: a value of every member, distinguishable and not
+        Ci = ("raw", [("r", ("any",), ("d", ("int", 0)))])
+        Sq = ("raw", [("s", ("any",), ("d", ("int", 0)))])
+        Bx = ("raw", [("r", ("any",), ("d", ("int", 1)))])
+        for kind in ("opt", "union"):
+            for j, v in ((0, ("obj", 0, [("float", sx.fbits(1.5))])), (1, ("obj", 1, [("float", sx.fbits(3.0))])), (None, ("null",))):
+                cs.append(("rt", [Ci, Sq, L((kind, [0, 1]))], ("obj", 2, [v, ("null",)])))
+                cs.append(("rt", [Ci, Sq, L((kind, [1, 0]))], ("obj", 2, [v, ("null",)])))
+            cs.append(("rt", [Ci, Bx, L((kind, [0, 1]))], ("obj", 2, [("obj", 1, [("int", 3)]), ("null",)])))      # ambiguous: C28-K3
+        # histories in one process: a failed serialisation must not change what comes after it; the same bytes load twice
+        good = ("obj", 1, [p12, ("list", [("int", 1), ("dict", [("z", ("list", []))])])])
+        for base in ("raw", "iceraw", "icetyme", "reg"):
+            Pb = (base, P[1])
+            Lb = (base, L(("dom", 0))[1])
+            cs.append(("seq", [Pb, Lb], [("rt", good), ("bad", "raw"), ("rt", good), ("bad", "iceraw"), ("bad", "raw"), ("rt", good), ("load", 0, ("dict", [("x", ("int", 1))]))]))
         return cs
 
     def generate(self, rng, n, tier):
         for _ in range(n):
-            yield D.gen_rt(rng) if rng.random() < 0.75 else D.gen_load(rng)
+            r = rng.random()
+            yield D.gen_rt(rng) if r < 0.5 else D.gen_load(rng) if r < 0.7 else D.gen_seq(rng)
+
+    # ---------------------------------------------------------------- wire
+    @staticmethod
+    def _steps(case):
+        if case[0] == "rt":
+            return [("rt", case[2])]
+        if case[0] == "load":
+            return [("load", case[2], case[3])]
+        return list(case[2])
 
     def request(self, case):
         if case[0] == "rt":
             return ("rt", D.wire_schema(case[1]), D.wire_tree(case[2]))
-        return ("load", D.wire_schema(case[1]), case[2], D.wire_tree(case[3]))
-
-    def run_impl(self, case):
-        classes = D.build_classes(case[1])
         if case[0] == "load":
-            cls = classes[case[2]]
-            d = D.to_py(case[3], classes)
-            r = _res(lambda: cls._fromdict(d))
-            return (("ok", D.canon(r[1], classes)) if r[0] == "ok" else r,)
-        x = D.to_py(case[2], classes)
+            return ("load", D.wire_schema(case[1]), case[2], D.wire_tree(case[3]))
+        steps = []
+        for st in case[2]:
+            if st[0] == "rt":
+                steps.append(("rt", D.wire_tree(st[1])))
+            elif st[0] == "load":
+                steps.append(("load", st[1], D.wire_tree(st[2])))
+            else:
+                steps.append(("bad",))
+        return ("seq", D.wire_schema(case[1]), tuple(steps))
+
+    # ---------------------------------------------------------------- implementation
+    @staticmethod
+    def _containers(v, out):
+        """ids of every list / dict reachable from v (through data objects too)"""
+        import dataclasses
+        if isinstance(v, list):
+            out.add(id(v))
+            for x in v:
+                C28._containers(x, out)
+        elif isinstance(v, dict):
+            out.add(id(v))
+            for x in v.values():
+                C28._containers(x, out)
+        elif dataclasses.is_dataclass(v) and not isinstance(v, type):
+            for f in dataclasses.fields(v):
+                C28._containers(getattr(v, f.name), out)
+        return out
+
+    @staticmethod
+    def _scribble(v):
+        """change every list / dict reachable from v in place (what a caller may legitimately do with ITS object)"""
+        import dataclasses
+        if isinstance(v, list):
+            for x in v:
+                C28._scribble(x)
+            v.append("scribbled")
+        elif isinstance(v, dict):
+            for x in list(v.values()):
+                C28._scribble(x)
+            v["scribbled"] = True
+        elif dataclasses.is_dataclass(v) and not isinstance(v, type):
+            for f in dataclasses.fields(v):
+                C28._scribble(getattr(v, f.name))
+
+    def _rt_step(self, classes, tree):
+        x = D.to_py(tree, classes)
         cls = type(x)
         orig = D.canon(x, classes)
         try:
@@ -108,28 +174,105 @@ class C28(core.Check):
             res = _res(lambda: getattr(cls, "_from" + r)(ser))
             if res[0] == "ok":
                 y = res[1]
-                eqs.append(bool(y == x) and type(y) is cls)
+                eq = bool(y == x) and type(y) is cls
                 res = ("ok", D.canon(y, classes))
+                if r != "dict":
+                    # deserialising the same bytes once more, after the caller changed the containers of the first result,
+                    # must give the same value again, built from fresh containers
+                    first = self._containers(y, set())
+                    self._scribble(y)
+                    again = _res(lambda: getattr(cls, "_from" + r)(ser))
+                    if again[0] != "ok" or D.canon(again[1], classes) != res[1] or (first & self._containers(again[1], set())):
+                        res = ("ok-but-second-load-differs", res[1])
+                        eq = False
+                eqs.append(eq)
             else:
                 eqs.append(False)
             out.append((r, res))
-        return (orig, asd, tuple(out), tuple(eqs))
+        return ("rt", orig, asd, tuple(out), tuple(eqs))
+
+    def _load_step(self, classes, j, tree):
+        cls = classes[j]
+        d = D.to_py(tree, classes)
+        r = _res(lambda: cls._fromdict(d))
+        return ("load", ("ok", D.canon(r[1], classes)) if r[0] == "ok" else r)
+
+    def _bad_step(self, base):
+        """serialise a record that holds an object no codec can represent: every route must refuse, and nothing may be
+        left behind that changes a later call"""
+        import dataclasses
+        import typing
+        from hio.help import doming
+        bases = dict(raw=doming.RawDom, reg=doming.RegDom, iceraw=doming.IceRawDom, icetyme=doming.IceTymeDom)
+        cls = dataclasses.make_dataclass(f"C28Bad{next(D._counter)}", [("a", typing.Any, dataclasses.field(default=None)),
+                                                                        ("x", typing.Any, dataclasses.field(default=None))],
+                                         bases=(bases[base],), frozen=base.startswith("ice"))
+        if base in ("reg", "icetyme"):
+            cls = doming.registerify(cls)
+        if base == "icetyme":
+            cls = doming.namify(cls)
+        rec = cls(a={"k": [1, "two"]}, x=object())
+        out = []
+        for r in ("json", "cbor", "mgpk"):
+            try:
+                getattr(rec, "_as" + r)()
+                out.append((r, "accepted"))
+            except Exception:
+                out.append((r, "refused"))
+        return ("bad", tuple(out))
+
+    def run_impl(self, case):
+        """every case is ONE self-contained history: the module under test is re-imported first, so whatever state it keeps
+        between calls (caches, shared encoders, registries) starts clean and a replay of the case alone reproduces it.
+        (A forked child per case would isolate more but costs ~0.2 s per case here.)"""
+        import importlib
+        import warnings
+        from hio.help import doming
+        with warnings.catch_warnings():
+            warnings.simplefilter("ignore")
+            importlib.reload(doming)
+        return self._run_steps(case)
+
+    def _run_steps(self, case):
+        classes = D.build_classes(case[1])
+        out = []
+        for st in self._steps(case):
+            if st[0] == "rt":
+                out.append(self._rt_step(classes, st[1]))
+            elif st[0] == "load":
+                out.append(self._load_step(classes, st[1], st[2]))
+            else:
+                out.append(self._bad_step(st[1]))
+        return tuple(out)
+
+    def _view(self, so):
+        if so[0] == "load":
+            return sx.dumps(so[1])
+        if so[0] == "bad":
+            return "(bad)" if all(v == "refused" for _, v in so[1]) else sx.dumps(so)
+        results = {r for _, r in so[3]}
+        if len(results) == 1:
+            return sx.dumps((so[2], next(iter(results))))
+        return sx.dumps((so[2], so[3]))      # routes disagree among themselves: cannot match the model's single answer
 
     def compare_view(self, case, obs):
-        if case[0] == "load":
-            return sx.dumps(obs[0])
-        results = {r for _, r in obs[2]}
-        if len(results) == 1:
-            return sx.dumps((obs[1], next(iter(results))))
-        return sx.dumps((obs[1], obs[2]))      # routes disagree among themselves: cannot match the model's single answer
+        if case[0] != "seq":
+            return self._view(obs[0])
+        return "(" + " ".join(self._view(so) for so in obs) + ")"
 
-    def oracle(self, case, obs):
-        if case[0] == "load":
+    # ---------------------------------------------------------------- oracle
+    @staticmethod
+    def _step_clauses(so):
+        if so[0] == "load":
             return []
-        orig, asd, routes, eqs = obs
+        if so[0] == "bad":
+            return [f"{r}-accepted-unserializable" for r, v in so[1] if v != "refused"]
+        _, orig, asd, routes, eqs = so
         bad = []
         for (r, res), eq in zip(routes, eqs):
-            if res[0] != "ok":
+            if res[0] == "ok-but-second-load-differs":
+                bad.append(f"{r}-second-load-differs-or-shares-containers")
+            elif res[0] != "ok":
                 bad.append(f"{r}-raised")
             elif not eq:
                 bad.append(f"{r}-not-equal-or-other-class")
@@ -137,49 +280,98 @@ class C28(core.Check):
                 bad.append(f"{r}-value-type-changed")
         return bad
 
+    def oracle(self, case, obs):
+        bad = []
+        for so in obs:
+            for c in self._step_clauses(so):
+                if c not in bad:
+                    bad.append(c)
+        return bad
+
     def known(self, case, obs, clauses):
-        if case[0] != "rt":
-            return None
-        if not all(c.endswith("-not-equal-or-other-class") for c in clauses):
-            return None
-        if len({r for _, r in obs[2]}) != 1:
-            return None
-        if D.misplaced_obj(case[1], case[2]):
-            return "C28-K1"
-        if D.upgraded_plain(case[1], case[2]):
-            return "C28-K2"
-        return None
+        ids = set()
+        schema = case[1]
+        for st, so in zip(self._steps(case), obs):
+            cl = self._step_clauses(so)
+            if not cl:
+                continue
+            if st[0] != "rt" or not all(c.endswith("-not-equal-or-other-class") for c in cl):
+                return None
+            if len({r for _, r in so[3]}) != 1:
+                return None
+            if D.misplaced_obj(schema, st[1]):
+                ids.add("C28-K1")
+            elif D.upgraded_plain(schema, st[1]):
+                ids.add("C28-K2")
+            elif D.ambiguous_union(schema, st[1]):
+                ids.add("C28-K3")
+            else:
+                return None
+        return sorted(ids)[0] if ids else None
 
     def nontrivial(self, case, obs):
-        if case[0] == "load":
-            return case[3][0] == "dict" and len(case[3][1]) > 0
-        return any(v[0] in ("obj", "list", "dict") for v in case[2][2])
+        for st in self._steps(case):
+            if st[0] == "load" and st[2][0] == "dict" and len(st[2][1]) > 0:
+                return True
+            if st[0] == "rt" and any(v[0] in ("obj", "list", "dict") for v in st[1][2]):
+                return True
+        return False
 
     def features(self, case, obs):
         f = [case[0]]
-        if case[0] == "load":
-            f.append("load:" + obs[0][0])
-            return f
-        schema, t = case[1], case[2]
-        f.append(f"classes:{len(schema)}")
-        f.append(f"base:{schema[t[1]][0]}")
-        anns = {a[0] for _, flds in schema for _, a, _ in flds}
-        f += [f"ann:{a}" for a in sorted(anns)]
+        schema = case[1]
+        if case[0] == "seq":
+            f.append(f"seq:len{len(case[2])}")
+            kinds = [st[0] for st in case[2]]
+            if any(a == "bad" and b == "rt" for a, b in zip(kinds, kinds[1:])):
+                f.append("seq:rt-right-after-failed-serialisation")
+        for st, so in zip(self._steps(case), obs):
+            if st[0] == "load":
+                f.append("load:" + so[1][0])
+                continue
+            if st[0] == "bad":
+                f.append("bad:" + st[1])
+                continue
+            t = st[1]
+            f.append(f"base:{schema[t[1]][0]}")
+            anns = {a[0] + ("-multi" if a[0] in ("opt", "union") and len(D.members(a)) > 1 else "") for _, flds in schema for _, a, _ in flds}
+            f += [f"ann:{a}" for a in sorted(anns)]
 
-        def depth(t):
-            if t[0] == "obj":
-                return 1 + max([depth(x) for x in t[2]] or [0])
-            if t[0] == "list":
-                return max([depth(x) for x in t[1]] or [0])
-            if t[0] == "dict":
-                return max([depth(x) for _, x in t[1]] or [0])
-            return 0
-        f.append(f"objdepth:{depth(t)}")
-        f.append("guard:" + ("K1" if D.misplaced_obj(schema, t) else "K2" if D.upgraded_plain(schema, t) else "clean"))
-        f.append("rt:" + ("equal" if all(obs[3]) else "differs"))
+            def depth(t):
+                if t[0] == "obj":
+                    return 1 + max([depth(x) for x in t[2]] or [0])
+                if t[0] == "list":
+                    return max([depth(x) for x in t[1]] or [0])
+                if t[0] == "dict":
+                    return max([depth(x) for _, x in t[1]] or [0])
+                return 0
+
+            def later_member(t, ann=("dom", None)):
+                if t[0] != "obj":
+                    return False
+                ms = D.members(ann) if D.class_ann(ann) and ann[1] is not None else []
+                if len(ms) > 1 and t[1] in ms and ms.index(t[1]) > 0:
+                    return True
+                return any(later_member(x, a) for x, (_, a, _) in zip(t[2], schema[t[1]][1]))
+            f.append(f"objdepth:{depth(t)}")
+            if later_member(t):
+                f.append("union:value-of-later-member")
+            f.append("guard:" + ("K1" if D.misplaced_obj(schema, t) else "K2" if D.upgraded_plain(schema, t) else "K3" if D.ambiguous_union(schema, t) else "clean"))
+            f.append("rt:" + ("equal" if all(so[4]) else "differs"))
         return f
 
     def shrink(self, case):
+        if case[0] == "seq":
+            steps = case[2]
+            for i in range(len(steps)):
+                yield ("seq", case[1], steps[:i] + steps[i + 1:])
+            if len(steps) == 1 and steps[0][0] == "rt":
+                yield ("rt", case[1], steps[0][1])
+            for i, st in enumerate(steps):
+                if st[0] == "rt":
+                    for c in self.shrink(("rt", case[1], st[1])):
+                        yield ("seq", case[1], steps[:i] + [("rt", c[2])] + steps[i + 1:])
+            return
         if case[0] == "load":
             t = case[3]
             if t[0] == "dict":
